@@ -68,3 +68,25 @@ Definition stat_std (pv : list R) : option R := match pv with [] => None | _ => 
 (* a variable with extra dimensions: the value of a point is the list of its lanes (all index tuples of the extra
    dimensions in a fixed order); lane j of it *)
 Definition lane (j : nat) (a : list (option R)) : option R := nth j a None.
+
+(* ------------------------------------------------------------------ several variables, arbitrary custom functions
+   collapse loops over the variables of the non-reference group; every variable is binned into a matrix of its own
+   (np.empty + NaN fill per variable) and every function of the table is applied to it: the result is
+   {variable -> {function name -> one value per reference point}} (the field <var>_<function>). *)
+Definition collapse_vars {A : Type} (f : A -> option R) (d : A) (refrow otherrow : list nat)
+    (vars : dict (list A)) (custom : dict collapser) : dict (dict (list out)) :=
+  map (fun nv => (fst nv, collapse_var f d refrow otherrow (snd nv) custom)) vars.
+
+Definition field_of (v name : String.string) (c : nat) (res : dict (dict (list out))) : option out :=
+  match lookup v res with Some r => field name c r | None => None end.
+
+(* what a collapser function is handed for reference point c (lane f): the values of the partner points in the order of
+   the pair list, then NaN padding up to the largest number of partners of any reference point *)
+Definition padded_column {A : Type} (f : A -> option R) (d : A) (refrow otherrow : list nat) (vals : list A) (c : nat)
+  : list (option R) :=
+  map f (gather d (partner_points refrow otherrow c) vals)
+  ++ repeat None (S (list_max (rows_for refrow)) - cnt c refrow).
+
+(* custom functions that return a row of the matrix (in numpy: a VIEW of it): slot k = the (k+1)-th partner, the last slot *)
+Definition slot (k : nat) : collapser := fun l => Fl (nth k l None).
+Definition last_slot : collapser := fun l => Fl (last l None).
